@@ -1,7 +1,7 @@
 """Property -> hooks module (operations, oracles and configuration beyond the core world)."""
 import importlib
 
-MODULES = {"C04": "c04", "C06": "c06", "C07": "c07", "C08": "c08", "C09": "c09", "C10": "c10", "C11": "c11", "C16": "c16", "C17": "c17", "C18": "c18", "C19": "c19"}
+MODULES = {"C01": "prov", "C02": "prov", "C03": "prov", "C05": "prov", "C04": "c04", "C06": "c06", "C07": "c07", "C08": "c08", "C09": "c09", "C10": "c10", "C11": "c11", "C16": "c16", "C17": "c17", "C18": "c18", "C19": "c19"}
 
 
 def hooks_for(prop):
